@@ -256,6 +256,13 @@ func (c *Ctx) ruleStoreAll(rule string) {
 							lookup = call
 						}
 					}
+					// ... or through a helper of the package that is handed the struct value and the descriptor's index and
+					// hands the field back (one that allocates embedded pointers on the way, say)
+					if helper := core.StaticBody(&call.Call); helper != nil && len(call.Call.Args) == 2 && fromStructField(call.Call.Args[1]) &&
+						helper.Signature.Results().Len() >= 1 && typeStr(helper.Signature.Results().At(0).Type()) == "reflect.Value" &&
+						typeStr(call.Call.Args[0].Type()) == "reflect.Value" {
+						lookup = call
+					}
 				}
 			}
 		}
